@@ -10,11 +10,23 @@ def styleOf : String → Option (CStyle × Bool)
   | "stateless" => some (.stateless, false) | "caching" => some (.caching, false)
   | "peratom" => some (.perAtom, false)
   | "inplace" => some (.caching, true)      -- caches like `caching`; its result ARRAYS live in one buffer
+  | "lazy" => some (.caching, true)         -- the same, forces only computed when asked for
   | _ => none
 
 def runCTrials (sim : Sim) (log inplace : Bool) : List TrialIn → AState → List String → List String
   | [], _, acc => acc.reverse
   | t :: ts, s, acc =>
+    if t.name = "!run" then
+      -- a run boundary: the user's edit, then `validate_simulation()` (positions, reference energy, results)
+      let (pos, cell) := runEdit t.inp
+      let s1 := avalidate true inplace sim { s with cs := { s.cs with m := userEdit s.cs.m pos cell } }
+      let fk := match aForces inplace s1 with
+        | some f => toString (forceSum f)
+        | none => "none"
+      let line := "U" ++ (snapshot .accepted s1.cs.m).drop 1 ++
+        s!" e={(getEnergy s1.cs.cal s1.cs.m.atoms).1} le={s1.cs.lastE} ev={s1.cs.cal.evals} br={if s1.cs.cal.broken then 1 else 0} fk={fk}"
+      runCTrials sim log inplace ts s1 (line :: acc)
+    else
     match sim.table.find? (fun e => e.name = t.name) with
     | none => (("unknown-move " ++ t.name) :: acc).reverse
     | some e =>
